@@ -22,8 +22,9 @@ import (
 )
 
 type cfg struct {
-	content int   // 0..8: a in {absent,l=0,l=1} x b in {absent,l=0,l=1}
-	seq     []int // filters: seq[0] initial, then Refilter(seq[1]), Refilter(seq[2])
+	deferred bool  // SubscribeForFilter: seq[0] is supplied by the first Refilter (which makes it ready), after the node has seen its parent ready
+	content  int   // 0..8: a in {absent,l=0,l=1} x b in {absent,l=0,l=1}
+	seq      []int // filters: seq[0] initial, then Refilter(seq[1]), Refilter(seq[2])
 }
 
 func objects(content int) []metav1.Object {
@@ -59,13 +60,24 @@ type inst struct {
 func (in *inst) run() {
 	root := hx.NewRoot(filter.Null())
 	root.Init(objects(in.c.content))
-	nodes := hx.Build(root.Pub, []hx.Spec{{Kind: "fsub", Filter: in.c.seq[0]}}, nil, "", nil)
+	spec := hx.Spec{Kind: "fsub", Filter: in.c.seq[0]}
+	if in.c.deferred {
+		spec = hx.Spec{Kind: "dsub"}
+	}
+	nodes := hx.Build(root.Pub, []hx.Spec{spec}, nil, "", nil)
 	n := nodes[0]
 	if n.Err != nil {
 		vs.Fail("build | %v", n.Err)
 		return
 	}
 	go n.Consume(false)
+	if in.c.deferred {
+		time.Sleep(1) // quiescence: the node has observed its parent's readiness and is waiting for a filter
+		if err := n.Refilter(hx.MkFilter(in.c.seq[0])); err != nil {
+			vs.Fail("first refilter | %v", err)
+			return
+		}
+	}
 	<-n.Ready()
 	in.ready = true
 	barrier := func() step {
@@ -170,9 +182,9 @@ func (in *inst) outcome() string { return fmt.Sprint(in.steps) }
 
 func Property() runner.Property {
 	return runner.Property{
-		ID:    "C07",
-		Level: "model_checking",
-		Rule:  "all 9 parent contents over 2 keys x {absent, l=0, l=1} x all ordered pairs (quick) and triples (thorough) of the filter family {Null, All, l=1, l=0, name=a, FN(l==1)} (equal, overlapping, disjoint, accept-all, accept-none, rebuilt-equal, non-comparable); a ready SubscribeWithFilter node over an idle parent; one Refilter between two quiescence barriers; every interleaving inside each call (S1); oracle: exactly one Delete per cached object the new filter rejects, one Create per parent object newly accepted, nothing else; equal filter: no event, cache unchanged; A->B->A restores A's view",
+		ID:          "C07",
+		Level:       "model_checking",
+		Rule:        "all 9 parent contents over 2 keys x {absent, l=0, l=1} x all ordered pairs (quick) and triples (thorough) of the filter family {Null, All, l=1, l=0, name=a, FN(l==1), And(l=1,name=a), And(l=1,name=b)} (equal, overlapping, disjoint, accept-all, accept-none, rebuilt-equal, non-comparable); a ready SubscribeWithFilter node (and, on two contents, a SubscribeForFilter node made ready by its first Refilter) over an idle parent; one Refilter between two quiescence barriers; every interleaving inside each call (S1); oracle: exactly one Delete per cached object the new filter rejects, one Create per parent object newly accepted, nothing else; equal filter: no event, cache unchanged; A->B->A restores A's view",
 		Assumptions: []string{"premise of the property: subscription ready and no parent events in flight (barrier = quiescence, decided by the scheduler, not by sleeping)"},
 		Scenarios: func(tier string) []runner.Sc {
 			var out []runner.Sc
@@ -194,15 +206,24 @@ func Property() runner.Property {
 			}
 			for content := 0; content < 9; content++ {
 				for _, sq := range seqs {
-					c := cfg{content: content, seq: sq}
-					out = append(out, runner.Sc{Scenario: explore.Scenario{
-						Name: fmt.Sprintf("c07/content%d/%s", content, strings.Join(names(sq), ">")), Mode: "S1",
-						Cfg: vs.Config{Timers: vs.TimersIdle, MaxSteps: 100000},
-						New: func() explore.Instance {
-							in := &inst{c: c}
-							return explore.Instance{Run: in.run, Check: in.check, Outcome: in.outcome}
-						},
-					}})
+					for _, deferred := range []bool{false, true} {
+						if deferred && (content%4 != 2) {
+							continue // deferred variant on a subset of the contents (2 and 6)
+						}
+						c := cfg{content: content, seq: sq, deferred: deferred}
+						kind := "fsub"
+						if deferred {
+							kind = "dsub"
+						}
+						out = append(out, runner.Sc{Scenario: explore.Scenario{
+							Name: fmt.Sprintf("c07/%s/content%d/%s", kind, content, strings.Join(names(sq), ">")), Mode: "S1",
+							Cfg: vs.Config{Timers: vs.TimersIdle, MaxSteps: 100000},
+							New: func() explore.Instance {
+								in := &inst{c: c}
+								return explore.Instance{Run: in.run, Check: in.check, Outcome: in.outcome}
+							},
+						}})
+					}
 				}
 			}
 			return out
